@@ -42,6 +42,9 @@ package transaction
 //@   loop 1 invariant quietSoFar() && (proposalCreates > old(proposalCreates) ==> !lastCreateExisted) && proposalCreates >= old(proposalCreates)
 //@   loop 1 invariant forall t string :: visited(1)[t] ==> (exists j int :: 0 <= j && j < len(proposals) && proposals[j] == propIDOf(t, transaction.Index))
 //@   loop 2 invariant quietSoFar() && (proposalCreates > old(proposalCreates) ==> !lastCreateExisted) && proposalCreates >= old(proposalCreates)
+// (loop 2 is the range over the rolled-back transaction's targets, loop 3 the inner copy loop of the change branch; the
+// list-completeness invariant of loop 1 does not discharge on loop 2 - state merges hide the copied row from the
+// triggers - so the rollback branch carries no completeness clause)
 //@   loop 3 invariant quietSoFar() && (proposalCreates > old(proposalCreates) ==> !lastCreateExisted) && proposalCreates >= old(proposalCreates)
 //@   loop 4 invariant 0 - 1 <= rangeindex && quietSoFar() && proposalCreates == old(proposalCreates)
 //@   loop 4 invariant allInitialized ==> seenUpTo(transaction, seenInitialized, rangeindex)
